@@ -3,8 +3,8 @@ from fractions import Fraction
 
 from .. import poly
 from ..poly import Poly
-from ..interp import Arr, Pose, Obj, sym_pose
-from ..algebra import CDIM, run_obligation, run_tasks, record, ObFail
+from ..interp import ga, sa, Arr, Pose, Obj, sym_pose
+from ..algebra import custom_edge, CDIM, run_obligation, run_tasks, record, ObFail
 from .c03 import contribution_tasks
 from .c09 import pose_equal
 
@@ -23,8 +23,8 @@ class ErrorFunction:
         self.calls = 0
 
     def key(self):
-        vs = self.edge.fields["vertices"]
-        return tuple((v.fields["pose"].cls, tuple(c.key() for c in v.fields["pose"].data)) for v in vs)
+        vs = ga(self.edge, "vertices")
+        return tuple((ga(v, "pose").cls, tuple(c.key() for c in ga(v, "pose").data)) for v in vs)
 
     def __call__(self):
         self.calls += 1
@@ -44,7 +44,7 @@ def finite_difference_obligation(vtypes, m=2):
         poses = [sym_pose(t, "x%d" % k, unit=True) for k, t in enumerate(vtypes)]
         originals = [Pose(p.cls, list(p.data)) for p in poses]
         verts = [it.construct("Vertex", [Poly.const(10 + k), poses[k]]) for k in range(len(vtypes))]
-        edge = Obj("BaseEdge", information=None, estimate=None, vertex_ids=[Poly.const(10 + k) for k in range(len(vtypes))], vertices=verts)
+        edge = custom_edge(it, [Poly.const(10 + k) for k in range(len(vtypes))], None, None, verts)
         E = ErrorFunction(edge, m)
         edge.stubs["calc_error"] = E
         eps_expr = it.pkg.lookup("BaseEdge", "_NUMERICAL_DIFFERENTIATION_EPSILON")
@@ -56,7 +56,7 @@ def finite_difference_obligation(vtypes, m=2):
             raise ObFail("the unperturbed error is never evaluated")
         # the pose of every vertex is restored (same class, same components) and is a pose object again
         for k, v in enumerate(verts):
-            now = v.fields["pose"]
+            now = ga(v, "pose")
             pose_equal(it, now, originals[k], "after calc_jacobians the pose of vertex %d differs from its original value" % k, allow_neg_quat=False)
         eps_seen = set()
         for k, t in enumerate(vtypes):
